@@ -62,6 +62,19 @@ check("C05", "exploration",
       "Trusted: autograd.core.vspace as the structure predicate (the suite's own assertion).",
       "property-based testing (Hypothesis) with a structural (vector-space equality) oracle", "DESIGN.md C05")
 
+check("C06", "exploration",
+      "Every template case under generated mode stacks of depth 1-3 and through value_and_grad / grad_and_aux, ~110 argument forms of the "
+      "re-implemented wrappers and methods, and isinstance/type queries on boxes: the primal value must equal raw NumPy's result exactly "
+      "(structure, shape, dtype, bits), contain no tracer, and leave inputs unmodified.",
+      "Trusted: raw NumPy as the reference. Scalar Python-operator expressions are compared to 4 ulp (they are evaluated by different scalar/array kernels, not re-executed NumPy calls).",
+      "property-based testing (Hypothesis) with a differential oracle against raw NumPy (exact equality)", "DESIGN.md C06")
+check("C07", "exploration",
+      "Every real template case post-composed with a smooth nonlinearity, and generated array compositions: Hessian-vector products by "
+      "rev/rev, fwd/rev, rev/fwd, fwd/fwd must agree (1e-9), be symmetric, and match the second central difference of raw NumPy (1e-6); scalar "
+      "expression programs at orders 3-4 under every mode sequence against the symbolic reference differentiator.",
+      "Trusted: second-difference oracle (self-tested, regularity guard), symbolic reference differentiator.",
+      "property-based testing (Hypothesis): metamorphic mode-agreement/symmetry relations plus numerical and symbolic oracles", "DESIGN.md C07")
+
 NOT_YET = {}
 
 
